@@ -205,7 +205,7 @@ def check_across_threads(case, rec):
 
 def run_shard(shard, rec):
     rng = random.Random(f"{shard.get('seed', 0)}:C11:{shard['name']}")
-    for base in _strict.base_cases(shard, rng):
+    for base in _strict.base_cases(shard, rng, hostile=rec):
         check(base, rec)
         if base.t in ("Command", "Response") and (base.enc or (base.t == "Command" and b"\x80\x02" == base.d[:2])):
             check_across_threads(base, rec)
